@@ -325,7 +325,11 @@ def _no_hang(ctx):
     dispatch = repo.need_method(disp, "dispatch")
     from ..paths import Frame, NEXT, CONTINUE, RAISE, BREAK, RETURN
 
-    eng = ctx.engine(relevant=lambda e: False, max_depth=0, unroll=2)
+    eng = ctx.engine(
+        relevant=lambda e: e.kind == "raise" or (e.kind == "call" and dispatch in (e.data.get("targets") or [])),
+        max_depth=2, unroll=2,
+        inline_filter=lambda t: t is not dispatch and (t.cls is None or t.cls.name != "Dispatcher"),
+    )
     fr = Frame(fjs, None)
     body_paths = eng._block_paths(w.body, fr)
     n = 0
@@ -348,7 +352,8 @@ def _no_hang(ctx):
     if not bad:
         chk.ok("R14.c", fjs.qualname, fjs.loc(w), f"{n} paths through one iteration: each dispatches or raises")
     # the popped sequence entry must be the one that was dispatched
-    pops = [x for x in ast.walk(w) if isinstance(x, ast.Call) and isinstance(x.func, ast.Attribute) and x.func.attr in ("popleft", "pop")]
+    wf = ctx.norm.flat(fjs)
+    pops = [x for x in ast.walk(wf.node) if isinstance(x, ast.Call) and isinstance(x.func, ast.Attribute) and x.func.attr in ("popleft", "pop")]
     if not pops:
         chk.violation("R14.c", fjs, w, "the dispatched job is never removed from its machine sequence: the loop re-dispatches or stalls", loc=fjs.loc(w))
     test = ast.unparse(w.test)
@@ -358,26 +363,42 @@ def _no_hang(ctx):
 
 def _feasible(evs) -> bool:
     """Prunes paths that contradict a local boolean flag's constant value
-    (flag = False ... if not flag: taken False)."""
-    env: dict[str, bool] = {}
+    (flag = False ... if not flag: taken False), also when the flag is
+    returned by an inlined helper."""
+    env: dict[tuple, bool] = {}
+    last_ret: dict[int, bool] = {}
     for e in evs:
+        fid = e.frame.id
         if e.kind == "write" and e.data.get("local"):
             st = e.node
-            if isinstance(st, ast.Assign) and len(st.targets) == 1 and isinstance(st.targets[0], ast.Name):
+            if isinstance(st, (ast.Assign, ast.AnnAssign)) and isinstance(getattr(st, "targets", [getattr(st, "target", None)])[0], ast.Name):
+                tgt = (st.targets[0] if isinstance(st, ast.Assign) else st.target).id
                 v = st.value
                 if isinstance(v, ast.Constant) and isinstance(v.value, bool):
-                    env[st.targets[0].id] = v.value
+                    env[(fid, tgt)] = v.value
+                elif isinstance(v, ast.Call) and id(v) in last_ret:
+                    env[(fid, tgt)] = last_ret[id(v)]
+                elif isinstance(v, ast.Name) and (fid, v.id) in env:
+                    env[(fid, tgt)] = env[(fid, v.id)]
                 else:
-                    env.pop(st.targets[0].id, None)
+                    env.pop((fid, tgt), None)
             else:
-                env.pop(e.data.get("root"), None)
+                env.pop((fid, e.data.get("root")), None)
+        elif e.kind == "return" and e.frame.call_node is not None:
+            v = e.data.get("value")
+            if isinstance(v, ast.Constant) and isinstance(v.value, bool):
+                last_ret[id(e.frame.call_node)] = v.value
+            elif isinstance(v, ast.Name) and (fid, v.id) in env:
+                last_ret[id(e.frame.call_node)] = env[(fid, v.id)]
+            else:
+                last_ret.pop(id(e.frame.call_node), None)
         elif e.kind == "branch":
             t = e.node
             neg = False
             if isinstance(t, ast.UnaryOp) and isinstance(t.op, ast.Not):
                 t, neg = t.operand, True
-            if isinstance(t, ast.Name) and t.id in env:
-                val = (not env[t.id]) if neg else env[t.id]
+            if isinstance(t, ast.Name) and (fid, t.id) in env:
+                val = (not env[(fid, t.id)]) if neg else env[(fid, t.id)]
                 if val != e.data["taken"]:
                     return False
     return True
